@@ -1,6 +1,8 @@
 """Execution context: path condition, decisions (DFS by re-execution), heaps, obligations."""
 from __future__ import annotations
 
+import os
+
 import z3
 
 from .values import *
@@ -85,7 +87,7 @@ class Ctx:
         self.cheap = {}            # concrete heap: addr -> cell
         self.next_addr = 1
         self.sheap = {}            # SMT heap maps (key -> z3 array)
-        self.alloc = z3.K(I, z3.BoolVal(False))   # refs allocated on this path (SMT heap)
+        self.alloc = z3.Const("alloc0", z3.ArraySort(I, B))   # references allocated so far (arbitrary at entry: modular)
         self.fresh_refs = []       # refs of SMT objects/lists allocated on this path
         self.no_branch = 0
         self.merge_fresh = set()
@@ -315,7 +317,14 @@ class Ctx:
             self.counter += 1
             k = z3.Int(f"k!lr{self.counter}")
             terms = fn(k)
-            new_inners = [z3.Lambda([k], t) for t in terms]
+            if not os.environ.get("PYVC_LIST_LAMBDA"):
+                new_inners = []
+                for (p, s_), t in zip(comps, terms):
+                    inner = self.fresh("items", z3.ArraySort(I, s_))
+                    self.pc.append(z3.ForAll([k], z3.Select(inner, k) == t))
+                    new_inners.append(inner)
+            else:
+                new_inners = [z3.Lambda([k], t) for t in terms]
             for (p, s), inner in zip(comps, new_inners):
                 m = self.item_map(p, s)
                 self.sheap[("item", str(s), p)] = z3.Store(m, lst.z, inner)
